@@ -220,12 +220,16 @@ func (w *world) listDir(d string) (bool, []ent) {
 	}
 	var r []ent
 	for _, e := range es {
-		if e.IsDir() || e.Name() == "weekends" {
+		if e.Name() == "weekends" || (e.IsDir() && !strings.HasSuffix(e.Name(), ".lock")) {
 			continue
 		}
-		data, err := os.ReadFile(filepath.Join(d, e.Name()))
-		if err != nil {
-			continue
+		var data []byte
+		if !e.IsDir() { // a directory under a lock's name is observed as that (empty) lock
+			var err error
+			data, err = os.ReadFile(filepath.Join(d, e.Name()))
+			if err != nil {
+				continue
+			}
 		}
 		r = append(r, ent{w.nameID(e.Name()), w.rawID(data)})
 	}
@@ -410,6 +414,7 @@ type scen struct {
 	eventual bool
 	directed string // "" | race3 | emptybody | lateunlock: a scripted interleaving over a forced file set
 	pending2 bool   // the forced file set has 2-3 weeks (two or more reports to upload)
+	oldLock  int    // c05: 1.. = the week to upload has a dead uploader's lock (age and form by this number)
 	stubborn bool   // the server never accepts the OLDEST week (5xx / no answer), every other week gets 200
 	// deterministic sweeps of the thorough tier
 	small       bool  // the forced small file set (one week, two program builds)
@@ -419,6 +424,7 @@ type scen struct {
 }
 
 var sweeps []scen
+var faultScen int
 var scenIdx int
 var faultN int
 
@@ -464,6 +470,11 @@ func pickScen() scen {
 
 func pickScen1() scen {
 	if tag == "c05" {
+		faultScen++
+		if faultScen%3 == 0 {
+			// systematically: one week to report and upload, and the lock of a dead uploader on it
+			return scen{kind: "fault", nthreads: 1, policy: "seq", outcomes: "all200", small: true, oldLock: faultScen / 3}
+		}
 		return scen{kind: "fault", nthreads: 1, policy: "seq", outcomes: "all200"}
 	}
 	if tag == "c07" && rnd.Chance(4) {
@@ -1014,6 +1025,27 @@ func scenario() {
 			os.Chtimes(filepath.Join(w.up, staleLock+".json.lock"), old, old)
 			out.Note("pre-old-lock")
 		}
+	}
+	if sc.oldLock > 0 {
+		// the lock of a dead uploader on the week this run will try to upload: 30 min (young), 90 min,
+		// 2 h, 25 h or 3 days old; an empty file, or (every other time) a directory with content under
+		// the lock's name, which no Remove can take away
+		staleLock = weekList[0]
+		lp := filepath.Join(w.up, staleLock+".json.lock")
+		os.MkdirAll(w.up, 0777)
+		age := []time.Duration{30 * time.Minute, 90 * time.Minute, 2 * time.Hour, 25 * time.Hour, 72 * time.Hour}[sc.oldLock%5]
+		if (sc.oldLock/5)%2 == 1 {
+			os.MkdirAll(lp, 0777)
+			os.WriteFile(filepath.Join(lp, "keep"), []byte("x"), 0666)
+			out.Note("pre-lock-is-directory")
+		} else {
+			os.WriteFile(lp, nil, 0666)
+		}
+		old := time.Now().Add(-age)
+		os.Chtimes(lp, old, old)
+		upPresent = true
+		out.Note("pre-stale-lock")
+		out.Note(fmt.Sprintf("pre-old-lock-%s", age))
 	}
 	if !forced && rnd.Chance(4) {
 		addRaw(w.local, "2099-01-01.json", rawBody("f"))
